@@ -1434,13 +1434,13 @@ Proof.
       pose proof (rets_build _ _ _ _ _ _ _ B) as [B1 _]; rewrite !rets_app, B1, N1, D1.
       * exists ROk. msplit; auto. cbn [is_ok vars mkst]. apply F2_upd; auto. simpl.
         rewrite (build_val _ _ _ _ _ _ _ B). auto.
-      * exists r. msplit; auto. rewrite (build_fail _ _ _ _ _ _ _ B). cbn [vars mkst]. apply F2_upd; auto. apply rc_unknown.
+      * exists r. msplit; auto. rewrite (build_fail _ _ _ _ _ _ _ B). cbn [vars mkst]. apply F2_upd; auto; try apply rc_unknown.
     + destruct (build x0 c false (MkMove t)) as [[[b|r] x1] e1] eqn:B; inversion H; subst; clear H;
       pose proof (rets_build _ _ _ _ _ _ _ B) as [B1 _]; rewrite !rets_app, B1, N1, ?D1.
       * exists ROk. msplit; auto. cbn [is_ok vars mkst]. apply F2_upd; auto. simpl.
         rewrite (build_val _ _ _ _ _ _ _ B). auto.
       * exists r. msplit; auto. rewrite (build_fail _ _ _ _ _ _ _ B). cbn [vars mkst].
-        eapply F2_upd_left; eauto. apply rc_unknown.
+        eapply F2_upd_left; eauto; try apply rc_unknown.
   - (* OSwap *)
     destruct (nth_error (vars s) v) as [[bv|]|] eqn:Hv; try discriminate.
     destruct (nth_error (vars s) w) as [[bw|]|] eqn:Hw; try discriminate.
@@ -1459,7 +1459,7 @@ Proof.
           assert (U : forall (x y : acell), upd v x (upd v y a) = upd v x a).
           { clear. intros. revert v. induction a; destruct v; simpl; auto. f_equal; auto. }
           rewrite !U. destruct r.
-          - apply F2_upd; auto. apply rc_unknown.
+          - apply F2_upd; auto; try apply rc_unknown.
           - apply F2_upd; auto. eapply rc_alive; eauto. congruence. }
         { destruct (assign_box x1 a1 bw) as [[[[a2 b1] r] x2] e2] eqn:B2.
           pose proof (rets_assign_box _ _ _ _ _ _ _ _ B2) as [E2 _].
@@ -1480,8 +1480,8 @@ Proof.
               * eapply rc_alive; eauto. }
       * inversion H; subst; clear H. destruct (move_box_fail _ _ _ _ _ B1) as [i Ei]. subst r.
         rewrite rets_app, E1. exists (RBoom i). msplit; auto. cbn [is_ok vars mkst].
-        apply F2_upd; [apply F2_upd; auto; apply rc_unknown|]. apply rc_unknown.
         (* the specification only promises that both wrappers stay valid *)
+        eapply F2_upd_left; [eapply F2_upd_left; [exact R | exact Hw | apply rc_unknown] | exact Hv | apply rc_unknown].
     + inversion H; subst; clear H. exists ROk. msplit; auto. cbn [is_ok vars mkst].
       apply F2_upd; [apply F2_upd; auto|]; auto.
   - (* OInv *)
@@ -1494,12 +1494,12 @@ Proof.
     destruct (nth_error (vars s) v) as [[bv|]|] eqn:Hv; try discriminate.
     pose proof (F2_nth _ _ _ _ R Hv) as Rv.
     destruct (box_obj bv) as [o|] eqn:BO; inversion H; subst; clear H. cbn [vars opay].
-    eexists. split; [destruct t; reflexivity|].
+    exists (if t then RPerr (opay o + d) else RVal (opay o + d)). split; [destruct t; reflexivity|].
     destruct (geta a v) as [[p|]|] eqn:G.
     + simpl in Rv. unfold box_val in Rv. rewrite BO in Rv. unfold obs in Rv.
       destruct (omoved o) eqn:MV; try discriminate. inversion Rv; subst.
       split; [destruct t; reflexivity|]. apply F2_upd; auto. simpl. unfold box_val.
-      destruct bv; simpl in *; try discriminate; inversion BO; subst; unfold obs; simpl; rewrite MV; auto.
+      destruct bv; simpl in *; try discriminate; reflexivity.
     + split; [destruct t; exact I|].
       apply F2_upd_right; auto. rewrite G. apply rc_unknown.
     + simpl in Rv. contradiction.
@@ -1514,4 +1514,28 @@ Proof.
     destruct (nth_error (vars s) v) as [[bv|]|] eqn:Hv; try discriminate. inversion H; subst; clear H.
     destruct (rets_destroy bv) as [D1 _]. rewrite rets_app, D1. exists ROk. msplit; auto.
     cbn [vars]. apply F2_upd; auto. simpl. auto.
+Qed.
+
+(* the machine and the optional-cell specification run side by side: every operation has exactly one
+   result, the result is the one the specification expects whenever the specification knows the value *)
+Fixpoint agrees (c : cfg) (a : list acell) (s : st) (ops : list op) : Prop :=
+  match ops with
+  | [] => True
+  | o :: rest =>
+    match step c s o with
+    | Some (s', e) => exists r, rets e = [r] /\ sexpect a o r /\ agrees c (sstep a o r) s' rest
+    | None => agrees c a s rest
+    end
+  end.
+
+Lemma refine_run : forall c ops a s, Rf a s -> agrees c a s ops.
+Proof.
+  induction ops; simpl; intros; auto.
+  destruct (step c s a) as [[s' e]|] eqn:S; auto.
+  destruct (refine_step _ _ _ _ _ _ H S) as [r [A [B C]]]. exists r; auto.
+Qed.
+
+Theorem refines_optional_cell : forall c n ops, agrees c (repeat None n) (init n) ops.
+Proof.
+  intros. apply refine_run. unfold Rf, init; simpl. induction n; simpl; constructor; simpl; auto.
 Qed.
